@@ -46,14 +46,14 @@ def replay_doc(doc, ybin, root):
         if cls == "ndjson_header_not_as_documented":
             return False, "header probe is re-run by the check itself"
         rng = M.derive(doc["seed"], "replay")
-        why = RT.run_pipeline(cx, proto, vals, parts, pipeline, rng, doc.get("cpp_batch"), doc.get("chunk_mode", "whole"))
+        why = RT.run_pipeline(cx, proto, vals, parts, pipeline, rng, doc.get("cpp_batch"), doc.get("chunk_mode", "whole"), collect=doc.get("collect"))
         return bool(why), why
     finally:
         model.close()
 
 
 def main():
-    runner.run(PROP, "exploration", "checks.C03", quick_models=6, thorough_budget=1800,
+    runner.run(PROP, "exploration", "checks.C03", quick_models=16, thorough_budget=1800,
                rule=("one case = one generated protocol x one seeded value workload (edge integers, NaN/inf where the format allows, multi-byte UTF-8, empty and long "
                      "containers, empty streams, 25% with alignment padding so that streams exceed 64 KiB (and 1 MiB in the thorough tier) and the staging-buffer boundary "
                      "falls inside values) pushed through every pipeline of this property (python always; C++ relays for a share of the models), each pipeline with a seeded "
